@@ -383,6 +383,7 @@ func (t *HtmlScanner) readTag() (tok *Token, err error) {
 				t.state = stateTagAttrValue
 				attrValue.Reset()
 				attrValueStart = t.pos
+				attrValueEnd = t.pos
 			} else {
 				name := attrName.String()
 				if strings.HasSuffix(name, " ") {
@@ -406,15 +407,19 @@ func (t *HtmlScanner) readTag() (tok *Token, err error) {
 		case stateTagAttrValue: // 读取 attrValue 属性值
 			// <input value= 'a b c'>
 			// <input value= 'a "b" c'>
-			if attrValue.Len() == 0 { // 刚开始读取 value
+			if attrValue.Len() == 0 && ch != '>' { // 刚开始读取 value
 				if unicode.IsSpace(ch) {
 					attrValueStart = t.pos
+					attrValueEnd = t.pos
 					continue // 前导空白都忽略掉
 				}
 				attrValue.WriteRune(ch)
 				attrValueEnd = t.pos
-			} else { // 已经有 value 了
-				firstCh := []rune(attrValue.String())[0]
+			} else { // 已经有 value 了 (或者是 <p a=> 这样的空属性值 此时 firstCh=0 下面会直接结束)
+				var firstCh rune
+				if attrValue.Len() > 0 {
+					firstCh = []rune(attrValue.String())[0]
+				}
 				var finish bool
 				if firstCh == '"' || firstCh == '\'' {
 					if firstCh == ch { // 引号开头 现在又读取到引号 说明结束了
